@@ -298,7 +298,8 @@ func (k c18) judge(c *rt.Ctx, tree *gen.Node, pins []c18Atom, isFalse bool) {
 	head := []string{"select * where ", "select * where ", "select * where ", "where ", "select key, upper(value) as u where ", "select count(1), max(value) where ", "delete where "}[c.R.Intn(7)]
 	tail := ""
 	if c.R.Chance(1, 3) {
-		tail = []string{" limit 2", " limit 1, 2", " limit 200, 3", " order by value desc", " order by value limit 300, 2"}[c.R.Intn(5)]
+		// (limit 9 / limit 20: more than most clauses match, fewer than the largest batch size)
+		tail = []string{" limit 2", " limit 1, 2", " limit 200, 3", " order by value desc", " order by value limit 300, 2", " limit 9", " limit 20"}[c.R.Intn(7)]
 		if strings.HasPrefix(head, "delete") && strings.Contains(tail, "order") {
 			tail = " limit 200, 3"
 		}
